@@ -32,28 +32,27 @@ of optate.go / point.go / gfp.go appears here and has no tie yet; what is skippe
 pinned in Props/C10Kyber: formatting, sizes and the byte-level codec, which is property C11's) -/
 theorem translated_functions :
     Bn256Code.translated.map (fun r => r.1) =
+      -- in source order, file by file (gfp2, gfp6, gfp12, curve, twist, optate, point, gfp); point.go's `Mul` once per
+      -- case of its optional point argument; the ties of point.go / gfp.go are in Props/C10Kyber
       ["gfP2.Set", "gfP2.SetZero", "gfP2.SetOne", "gfP2.IsZero", "gfP2.IsOne", "gfP2.Conjugate", "gfP2.Neg",
        "gfP2.Add", "gfP2.Sub", "gfP2.Mul", "gfP2.MulScalar", "gfP2.MulXi", "gfP2.Square", "gfP2.Invert",
        "gfP6.Set", "gfP6.SetZero", "gfP6.SetOne", "gfP6.IsZero", "gfP6.IsOne", "gfP6.Neg", "gfP6.Frobenius",
        "gfP6.FrobeniusP2", "gfP6.FrobeniusP4", "gfP6.Add", "gfP6.Sub", "gfP6.Mul", "gfP6.MulScalar",
-       "gfP6.MulGFP", "gfP6.MulTau", "gfP6.Square", "gfP6.Invert",
-       "gfP12.Set", "gfP12.SetZero", "gfP12.SetOne", "gfP12.IsZero", "gfP12.IsOne", "gfP12.Conjugate",
-       "gfP12.Neg", "gfP12.Frobenius", "gfP12.FrobeniusP2", "gfP12.FrobeniusP4", "gfP12.Add", "gfP12.Sub",
-       "gfP12.Mul", "gfP12.MulScalar", "gfP12.Square", "gfP12.Exp", "gfP12.Invert",
-       "curvePoint.Set", "curvePoint.MakeAffine", "curvePoint.IsInfinity", "curvePoint.IsOnCurve",
-       "curvePoint.SetInfinity", "curvePoint.Double", "curvePoint.Add", "curvePoint.Mul", "curvePoint.Neg",
-       "twistPoint.Set", "twistPoint.MakeAffine", "twistPoint.IsInfinity", "twistPoint.Double", "twistPoint.Add",
-       "twistPoint.Mul", "twistPoint.IsOnCurve", "twistPoint.SetInfinity", "twistPoint.Neg",
-       "lineFunctionAdd", "lineFunctionDouble", "mulLine", "miller", "finalExponentiation", "optimalAte",
-       -- point.go (kyber API; `Mul` once per case of its optional point argument) and gfp.go: ties in Props/C10Kyber
-       "newPointG1", "pointG1.Null", "pointG1.Base", "pointG1.Pick", "pointG1.Set", "pointG1.Add", "pointG1.Neg",
-       "pointG1.Sub", "pointG1.Mul", "pointG1.Mul[q=nil]",
-       "newPointG2", "pointG2.Null", "pointG2.Base", "pointG2.Pick", "pointG2.Set", "pointG2.Add", "pointG2.Neg",
-       "pointG2.Sub", "pointG2.Mul", "pointG2.Mul[q=nil]",
-       "newPointGT", "pointGT.Null", "pointGT.Base", "pointGT.Pick", "pointGT.Set", "pointGT.Add", "pointGT.Neg",
-       "pointGT.Sub", "pointGT.Mul", "pointGT.Mul[q=nil]", "pointGT.Finalize", "pointGT.Miller", "pointGT.Pair",
-       "pointGT.PairingCheck",
-       "montEncode", "newGFp", "gfP.Set", "gfP.Invert", "montDecode"] := by
+       "gfP6.MulGFP", "gfP6.MulTau", "gfP6.Square", "gfP6.Invert", "gfP12.Set", "gfP12.SetZero",
+       "gfP12.SetOne", "gfP12.IsZero", "gfP12.IsOne", "gfP12.Conjugate", "gfP12.Neg", "gfP12.Frobenius",
+       "gfP12.FrobeniusP2", "gfP12.FrobeniusP4", "gfP12.Add", "gfP12.Sub", "gfP12.Mul", "gfP12.MulScalar",
+       "gfP12.Exp", "gfP12.Square", "gfP12.Invert", "curvePoint.Set", "curvePoint.IsOnCurve",
+       "curvePoint.SetInfinity", "curvePoint.IsInfinity", "curvePoint.Add", "curvePoint.Double",
+       "curvePoint.Mul", "curvePoint.MakeAffine", "curvePoint.Neg", "twistPoint.Set", "twistPoint.IsOnCurve",
+       "twistPoint.SetInfinity", "twistPoint.IsInfinity", "twistPoint.Add", "twistPoint.Double",
+       "twistPoint.Mul", "twistPoint.MakeAffine", "twistPoint.Neg", "lineFunctionAdd", "lineFunctionDouble",
+       "mulLine", "miller", "finalExponentiation", "optimalAte", "newPointG1", "pointG1.Null", "pointG1.Base",
+       "pointG1.Pick", "pointG1.Set", "pointG1.Add", "pointG1.Sub", "pointG1.Neg", "pointG1.Mul",
+       "pointG1.Mul[q=nil]", "newPointG2", "pointG2.Null", "pointG2.Base", "pointG2.Pick", "pointG2.Set",
+       "pointG2.Add", "pointG2.Sub", "pointG2.Neg", "pointG2.Mul", "pointG2.Mul[q=nil]", "newPointGT",
+       "pointGT.Null", "pointGT.Base", "pointGT.Pick", "pointGT.Set", "pointGT.Add", "pointGT.Sub",
+       "pointGT.Neg", "pointGT.Mul", "pointGT.Mul[q=nil]", "pointGT.Finalize", "pointGT.Miller",
+       "pointGT.Pair", "pointGT.PairingCheck", "newGFp", "gfP.Set", "gfP.Invert", "montEncode", "montDecode"] := by
   decide
 
 /-- **alias safety of the code**: for every translated function and every identification of its same-typed
